@@ -32,6 +32,32 @@ func init() {
 	// zooms (spread ≤ 2), plus strangers (coarser in one axis, other groups, across f = -1/0), duplicates, shuffles.
 	gen := func(spatial bool) []string {
 		var H, V int64
+		if rng.Intn(15) == 0 {
+			// a target far coarser than the inputs (21 levels or more): one or two fine voxels can never fill it, and the
+			// count it is compared with, 4^dh·2^dv, no longer fits in 64 bits — the inputs come back unchanged
+			z := int64(22 + rng.Intn(14))
+			H = int64(rng.Intn(int(z-21) + 1))
+			V = H
+			zv := z
+			if !spatial {
+				zv = int64(22 + rng.Intn(14))
+				V = int64(rng.Intn(int(zv-21) + 1))
+			}
+			e := randExtAt(z, zv)
+			if spatial {
+				e = clampExtF(e)
+			}
+			l := []ext{e}
+			if rng.Intn(2) == 0 {
+				sib := e
+				sib.x ^= 1
+				l = append(l, sib)
+			}
+			if spatial {
+				return []string{join(spids(l)), s(H)}
+			}
+			return []string{join(ids(l)), s(H), s(V)}
+		}
 		for {
 			H, V = randZoom(), randZoom()
 			if spatial {
